@@ -909,7 +909,8 @@ impl GlyphDataOffsetArray for Gvar<'_> {
             flags &= 0b11111110;
         }
 
-        let max_new_size = orig_size + offsets.data.len();
+        // If there is no glyph variation data at all a single padding byte is written in its place (see below).
+        let max_new_size = orig_size + offsets.data.len().max(1);
 
         // part 1 and 2 - write gvar header and offsets
         let mut serializer = Serializer::new(max_new_size);
@@ -926,6 +927,11 @@ impl GlyphDataOffsetArray for Gvar<'_> {
             .push()
             .and(serializer.embed_bytes(&offsets.data))
             .map_err(PatchingError::from)?;
+        if offsets.data.is_empty() {
+            // A zero length object can't be packed and linked to, so when no glyph has any variation data
+            // the data array is a single padding byte (which no glyph references).
+            serializer.embed(0u8).map_err(PatchingError::from)?;
+        }
 
         let glyph_data_obj = serializer
             .pop_pack(false)
